@@ -264,6 +264,46 @@ func c06Exec(op string) string {
 			return "err | " + note
 		}
 		return "ok | " + note
+	case "jtail":
+		// C06_trailing_ignored: NewMapJson(s+t) for a text s and a tail t.  The model side answers from
+		// s ALONE whenever s is not empty and accepted; here the same claim is an oracle on the library
+		// and on encoding/json's first value.
+		s := c.str()
+		t := c.str()
+		if c.err != nil {
+			return "bad-op " + c.err.Error()
+		}
+		mxj.JsonUseNumber = true
+		m0, err0 := mxj.NewMapJson([]byte(s))
+		m, err := mxj.NewMapJson([]byte(s + t))
+		note := ""
+		if len(s) > 0 && err0 == nil {
+			if err != nil || (m0 == nil) != (m == nil) || !deepEq(map[string]interface{}(m0), map[string]interface{}(m)) {
+				note = "TAILCHANGED a non-empty accepted text followed by a tail was rejected or decoded differently"
+			}
+		}
+		// encoding/json itself: an object/array/string/literal first value of s is the first value of s+t
+		var ref0, ref1 interface{}
+		d0 := json.NewDecoder(strings.NewReader(s))
+		d0.UseNumber()
+		rerr0 := d0.Decode(&ref0)
+		if _, isNum := ref0.(json.Number); rerr0 == nil && !isNum {
+			d1 := json.NewDecoder(strings.NewReader(s + t))
+			d1.UseNumber()
+			rerr1 := d1.Decode(&ref1)
+			_, isObj := ref0.(map[string]interface{})
+			_, isArr := ref0.([]interface{})
+			if (isObj || isArr) && (rerr1 != nil || !deepEq(ref0, ref1)) && note == "" {
+				note = "TAILREF encoding/json's first value of an object/array text changed under a tail"
+			}
+		}
+		if err != nil {
+			return "err | " + note
+		}
+		if m == nil {
+			return "ok n | " + note
+		}
+		return "ok " + enc(map[string]interface{}(m)) + " | " + note
 	case "jdec":
 		s := c.str()
 		if c.err != nil {
@@ -332,6 +372,9 @@ func c06Describe(op string) string {
 		return fmt.Sprintf("NewMapJson(%q) with JsonUseNumber", c.str())
 	case "jdecf":
 		return fmt.Sprintf("NewMapJson(%q) in the default (float64) number mode", c.str())
+	case "jtail":
+		a := c.str()
+		return fmt.Sprintf("NewMapJson(%q ++ %q) with JsonUseNumber beside NewMapJson of the first part", a, c.str())
 	}
 	return op
 }
@@ -493,8 +536,14 @@ func (r *Rng) jsonText(v interface{}) string {
 	return "null"
 }
 
+// jsonTails: what may follow a text - bytes that would extend an exposed number, brackets, quotes, whole values
+var jsonTails = []string{"3", "0", "e5", "E+2", ".5", "e", ".", "-", "]", "}", ",1]", ",\"x\":2}", " x", "\"", "\\", "{\"b\":1}", "[2]", "null", "true", " ", "\n", "\x00", "\xff", "\u00e9", "]]}}", ":", ","}
+
 func c06Gen(r *Rng, n int) []string {
 	var ops []string
+	// jtail ops come from a second stream and are appended after the n ops of the main stream
+	r2 := NewRng(r.s ^ 0x7461696c)
+	var extra []string
 	for len(ops) < n {
 		m := r.jsonMap(0)
 		ops = append(ops, fmt.Sprintf("jenc %d %s", b2i(r.Bool()), encJ(m)))
@@ -536,14 +585,25 @@ func c06Gen(r *Rng, n int) []string {
 		if r.P(50) {
 			ops = append(ops, "jdecf "+encStr(t))
 		}
+		// C06_trailing_ignored: the same text followed by a tail; or cut in two (the first part is then
+		// usually not accepted and the tail completes it)
+		switch r2.Intn(4) {
+		case 0:
+			i := r2.Intn(len(t) + 1)
+			extra = append(extra, "jtail "+encStr(t[:i])+" "+encStr(t[i:]))
+		case 1:
+			extra = append(extra, "jtail "+encStr(t)+" "+encStr(r2.Pick(jsonTails)+r2.Pick(jsonTails)))
+		default:
+			extra = append(extra, "jtail "+encStr(t)+" "+encStr(r2.Pick(jsonTails)))
+		}
 	}
-	return ops
+	return append(ops, extra...)
 }
 
 func init() {
 	register(&Prop{
 		ID:        "C06",
-		Rule:      "Maps of JSON types with keys and string values over a hostile alphabet (< > & backslash quote, the six-character sequences \\u003c \\u003e \\u0026, control characters, U+2028/9, non-BMP); safe and default encoding, JsonIndent, Copy; JsonIndent(prefix, indent[, safe]) byte for byte beside Forms.mapJsonIndent for white-space prefixes/indents of varied length (empty, blanks, tabs, CR, LF, mixed; rarely other text) and its bytes decoded by NewMapJson beside the model decoder; string literals alone; JSON texts with random white space / escape spellings / number spellings for NewMapJson (objects, arrays, other first values, leading white space, trailing bytes, single-character corruptions, truncations) under JsonUseNumber; non-trivial = encoded / accepted; distinct = distinct op lines",
+		Rule:      "Maps of JSON types with keys and string values over a hostile alphabet (< > & backslash quote, the six-character sequences \\u003c \\u003e \\u0026, control characters, U+2028/9, non-BMP); safe and default encoding, JsonIndent, Copy; JsonIndent(prefix, indent[, safe]) byte for byte beside Forms.mapJsonIndent for white-space prefixes/indents of varied length (empty, blanks, tabs, CR, LF, mixed; rarely other text) and its bytes decoded by NewMapJson beside the model decoder; string literals alone; JSON texts with random white space / escape spellings / number spellings for NewMapJson (objects, arrays, other first values, leading white space, trailing bytes, single-character corruptions, truncations) under JsonUseNumber; every such text again followed by a tail or cut in two (op jtail: the model answers from the first part alone when it is accepted - C06_trailing_ignored); non-trivial = encoded / accepted; distinct = distinct op lines",
 		Gen:       c06Gen,
 		Exec:      c06Exec,
 		Judge:     c06Judge,
@@ -561,6 +621,10 @@ func c06Fixed() []string {
 	// array is an error
 	for _, t := range []string{"[1,2] x", "[1,2]}", "[1],\"x\":2", " \n[1]\n<!--", "[1,2", "[1],\"object\":5", "[1.5e3,{\"a\":[]}]]", "[]x", "[1 2]", "["} {
 		ops = append(ops, "jdec "+encStr(t), "jdecf "+encStr(t))
+	}
+	// C06_trailing_ignored and the witnesses of its hypotheses / of the number side condition
+	for _, st := range [][2]string{{"[1,2]", "3"}, {" {\"a\":[1,2]}", "345e1 ]}"}, {"null", "x"}, {" null", "l"}, {"[1,2", "]"}, {" ", "{}"}, {"", "[1]"}, {"12", "3"}, {"1", "e5"}, {"tru", "e"}, {"{\"a\":1}", "0"}, {"{\"a\":\"\\ud83d\"}", "\\ude00"}, {"[\"x\"]", "\""}, {"[true]", "e"}, {"{}", "}"}, {"\t[ ]", "]"}} {
+		ops = append(ops, "jtail "+encStr(st[0])+" "+encStr(st[1]))
 	}
 	for _, t := range []string{" [1]", "\n[{\"a\":1}]", "\t [ ]", "null", " null ", "[1] x", "", "{}", "[]", " {\"a\":1} trailing", "1", "\"s\"", "true"} {
 		ops = append(ops, "jdec "+encStr(t), "jdecf "+encStr(t))
